@@ -223,6 +223,11 @@ func (c04) build(c *mon.Ctx, workload string, i int64) c04Case {
 		gt.Call("add_key", gt.Ident("o1"), gt.Ident("l")),
 		gt.Assign("=", gt.Index("m", gt.Str("k"), gt.Int(0)), gt.Int(100)),
 		gt.Call("p", gt.Ident("l"), gt.Ident("m"), gt.Ident("a"), gt.Ident("o1")),
+		// a slice is a copy: writes on either side must not show on the other
+		gt.Assign("=", gt.Ident("s"), gen.SliceForm(gt.Ident("l"), gen.SliceForms[c.R.Intn(len(gen.SliceForms))], gt.Int(0), gt.Int(int64(2+c.R.Intn(3))), gt.Int(1))),
+		gt.Assign("=", gt.Index("s", gt.Int(0)), gt.Str("via-slice")),
+		gt.Assign("=", gt.Index("l", gt.Int(-1)), gt.Str("via-list")),
+		gt.Call("p", gt.Ident("l"), gt.Ident("s")),
 	}
 	writes := false
 	gt.WalkStmts(stmts, func(t *gt.T) {
